@@ -186,50 +186,52 @@ func init() {
 				c.und("range-fork", pk+".unset", "", "anchor not found")
 				continue
 			}
-			cmpBlock := map[*ssa.BasicBlock]bool{}
-			for _, s2 := range sitesOf(f) {
-				if s2.Callee != nil && s2.Callee.Name() == "Cmp" {
-					cmpBlock[s2.Block()] = true
-				}
-			}
 			k := 0
-			allInstrsOne(f, func(in ssa.Instruction) {
-				iff, ok := in.(*ssa.If)
-				if !ok {
-					return
-				}
-				cond := iff.Cond
-				neg := false
-				if u, isNot := cond.(*ssa.UnOp); isNot && u.Op == token.NOT {
-					cond, neg = u.X, true
-				}
-				call, isCall := cond.(*ssa.Call)
-				if !isCall || call.Call.StaticCallee() == nil || call.Call.StaticCallee().Name() != "PathMatches" {
-					return
-				}
-				k++
-				nb := iff.Block().Succs[1]
-				if neg {
-					nb = iff.Block().Succs[0]
-				}
-				// from the non-matching side, every way to a return passes a comparison of the edge with the boundary key
-				seen := map[*ssa.BasicBlock]bool{}
-				q := []*ssa.BasicBlock{nb}
-				bad := ""
-				for len(q) > 0 {
-					b := q[0]
-					q = q[1:]
-					if seen[b] || cmpBlock[b] {
-						continue
+			for _, f := range samePkgScope(f, 2) {
+				cmpBlock := map[*ssa.BasicBlock]bool{}
+				for _, s2 := range sitesOf(f) {
+					if s2.Callee != nil && s2.Callee.Name() == "Cmp" {
+						cmpBlock[s2.Block()] = true
 					}
-					seen[b] = true
-					if exitKind(b) == "return" {
-						bad = p.Pos(posOf(b.Instrs[len(b.Instrs)-1], f))
-					}
-					q = append(q, b.Succs...)
 				}
-				c.check(bad == "", "range-fork", pk+".unset: non-matching edge classified", p.Pos(posOf(in, f)), "on the non-matching side the edge path is compared with the boundary key before the walker returns", "unset can return ("+bad+") for an edge that does not match the boundary key without comparing the edge with that key: an element that lies inside the range below a diverging edge is not cut, and a range with that element left out still verifies")
-			})
+				allInstrsOne(f, func(in ssa.Instruction) {
+					iff, ok := in.(*ssa.If)
+					if !ok {
+						return
+					}
+					cond := iff.Cond
+					neg := false
+					if u, isNot := cond.(*ssa.UnOp); isNot && u.Op == token.NOT {
+						cond, neg = u.X, true
+					}
+					call, isCall := cond.(*ssa.Call)
+					if !isCall || call.Call.StaticCallee() == nil || call.Call.StaticCallee().Name() != "PathMatches" {
+						return
+					}
+					k++
+					nb := iff.Block().Succs[1]
+					if neg {
+						nb = iff.Block().Succs[0]
+					}
+					// from the non-matching side, every way to a return passes a comparison of the edge with the boundary key
+					seen := map[*ssa.BasicBlock]bool{}
+					q := []*ssa.BasicBlock{nb}
+					bad := ""
+					for len(q) > 0 {
+						b := q[0]
+						q = q[1:]
+						if seen[b] || cmpBlock[b] {
+							continue
+						}
+						seen[b] = true
+						if exitKind(b) == "return" {
+							bad = p.Pos(posOf(b.Instrs[len(b.Instrs)-1], f))
+						}
+						q = append(q, b.Succs...)
+					}
+					c.check(bad == "", "range-fork", pk+".unset: non-matching edge classified", p.Pos(posOf(in, f)), "on the non-matching side the edge path is compared with the boundary key before the walker returns", "unset can return ("+bad+") for an edge that does not match the boundary key without comparing the edge with that key: an element that lies inside the range below a diverging edge is not cut, and a range with that element left out still verifies")
+				})
+			}
 			if k == 0 {
 				c.und("range-fork", pk+".unset", p.Pos(fnPos(f)), "no return under !PathMatches found")
 			}
@@ -793,7 +795,109 @@ func c10RangeUnsetDirty(c *Ctx) {
 	} else {
 		c.und("range-unset-dirty", "core/trie2.unsetInternal", "", "anchor not found")
 	}
-	if n < 3 {
+	// the walkers may be loops over a step helper: a same-package helper called from unset/unsetInternal that hands the child
+	// of the node it inspected back to its caller is a descent through that node, and must mark it dirty first; a loop in unset
+	// itself that continues below an asserted node counts like the one in unsetInternal
+	for _, nm := range []string{"unset", "unsetInternal"} {
+		f := p.Func("core/trie2", "", nm)
+		if f == nil {
+			continue
+		}
+		if nm == "unset" {
+			for _, x := range asserted(f) {
+				in, ok := x.(ssa.Instruction)
+				if !ok {
+					continue
+				}
+				xb := in.Block()
+				// blocks that reset the node's Flags (directly, or by handing it to a same-package step helper that does)
+				resets := map[*ssa.BasicBlock]bool{}
+				for _, st := range flagStores(f, x) {
+					resets[st.Block()] = true
+				}
+				for _, hs := range sitesOf(f) {
+					if hs.Callee == nil || pkgRelOf(hs.Callee) != pkgRelOf(f) || hs.Callee == f {
+						continue
+					}
+					for ai, a := range hs.Args() {
+						if mi, isMI := a.(*ssa.MakeInterface); isMI {
+							a = mi.X
+						}
+						if a == x && ai < len(hs.Callee.Params) && len(flagStores(hs.Callee, hs.Callee.Params[ai])) > 0 {
+							resets[hs.Block()] = true
+						}
+					}
+				}
+				// from the arm, can the loop be continued (a back edge to a header that dominates the arm) without a reset?
+				reaches, unreset := false, false
+				type st struct {
+					b    *ssa.BasicBlock
+					done bool
+				}
+				seen := map[st]bool{}
+				q := []st{{xb, resets[xb]}}
+				for len(q) > 0 {
+					cur := q[0]
+					q = q[1:]
+					if seen[cur] {
+						continue
+					}
+					seen[cur] = true
+					for _, succ := range cur.b.Succs {
+						if succ.Dominates(xb) && succ != xb && inSameLoop(succ, xb) {
+							reaches = true
+							if !cur.done {
+								unreset = true
+							}
+							continue
+						}
+						q = append(q, st{succ, cur.done || resets[succ]})
+					}
+				}
+				if reaches {
+					n++
+					c.check(!unreset, "range-unset-dirty", "unset: descent below "+typeShort(x.Type()), p.Pos(posOf(in, f)), "the node is marked dirty before the cutter continues below it", "the cutter continues below this node without resetting its Flags: its cached (prover-supplied) hash then stands for the whole subtree")
+				}
+			}
+		}
+		for _, h := range samePkgScope(f, 1) {
+			if h == f || h.Name() == "unset" || h.Name() == "unsetInternal" {
+				continue
+			}
+			for _, x := range asserted(h) {
+				fs := flagStores(h, x)
+				for _, r := range returnsOf(h) {
+					hands := false
+					for _, res := range r.Results {
+						for v := range backSlice(res) {
+							switch y := v.(type) {
+							case *ssa.FieldAddr:
+								if y.X == x && strings.HasPrefix(fieldName(y.X.Type(), y.Field), "Child") {
+									hands = true
+								}
+							case *ssa.Field:
+								if y.X == x && strings.HasPrefix(fieldName(y.X.Type(), y.Field), "Child") {
+									hands = true
+								}
+							}
+						}
+					}
+					if !hands {
+						continue
+					}
+					n++
+					okd := false
+					for _, st := range fs {
+						if dominatesInstr(st, r.Ret) {
+							okd = true
+						}
+					}
+					c.check(okd, "range-unset-dirty", h.Name()+": hands back the child of "+typeShort(x.Type()), p.Pos(posOf(r.Ret, h)), "the node is marked dirty before its child is handed back to the walker", "the step helper hands the child of this node back to the walker without resetting the node's Flags")
+				}
+			}
+		}
+	}
+	if n < 2 {
 		c.und("range-unset-dirty", "core/trie2 range walkers", "", fmt.Sprintf("only %d descents found", n))
 	}
 }
@@ -812,70 +916,117 @@ func c10EveryRequestedKey(c *Ctx) {
 			c.und("every-requested-key", v+".processStorageKeys", "", "anchor not found")
 			continue
 		}
-		// loads of field Keys of the ranged entry that are used (not only measured with len)
+		// loads of field Keys of the ranged entry that are used (not only measured with len) — in the function itself or in the
+		// same-package helpers it is split into (two levels)
 		found := false
-		allInstrsOne(f, func(in ssa.Instruction) {
-			fa, ok := in.(*ssa.FieldAddr)
-			var fv ssa.Value
-			if ok && fieldName(fa.X.Type(), fa.Field) == "Keys" {
-				fv = fa
-			} else if fld, ok2 := in.(*ssa.Field); ok2 && fieldName(fld.X.Type(), fld.Field) == "Keys" {
-				fv = fld
+		scope := []*ssa.Function{f}
+		for d := 0; d < 2; d++ {
+			for _, g := range append([]*ssa.Function{}, scope...) {
+				for _, s := range sitesOf(g) {
+					if s.Callee != nil && len(s.Callee.Blocks) > 0 && pkgRelOf(s.Callee) == pkgRelOf(f) {
+						dup := false
+						for _, x := range scope {
+							if x == s.Callee {
+								dup = true
+							}
+						}
+						if !dup {
+							scope = append(scope, s.Callee)
+						}
+					}
+				}
 			}
-			if fv == nil {
-				return
-			}
-			// consumers: any use other than len()/nil comparison
-			var uses []ssa.Instruction
-			var collect func(v ssa.Value, d int)
-			collect = func(v ssa.Value, d int) {
-				refs := v.Referrers()
-				if refs == nil || d > 3 {
+		}
+		for _, f := range scope {
+			allInstrsOne(f, func(in ssa.Instruction) {
+				fa, ok := in.(*ssa.FieldAddr)
+				var fv ssa.Value
+				if ok && fieldName(fa.X.Type(), fa.Field) == "Keys" {
+					fv = fa
+				} else if fld, ok2 := in.(*ssa.Field); ok2 && fieldName(fld.X.Type(), fld.Field) == "Keys" {
+					fv = fld
+				}
+				if fv == nil {
 					return
 				}
-				for _, r := range *refs {
-					switch x := r.(type) {
-					case *ssa.UnOp:
-						collect(x, d+1)
-					case *ssa.Call:
-						if b, isB := x.Call.Value.(*ssa.Builtin); isB && b.Name() == "len" {
-							continue
-						}
-						uses = append(uses, r)
-					case *ssa.BinOp:
-						continue
-					case *ssa.Slice:
-						collect(x, d+1)
-					default:
-						if _, isDbg := r.(*ssa.DebugRef); !isDbg {
+				// consumers: any use other than len()/nil comparison
+				var uses []ssa.Instruction
+				var collect func(v ssa.Value, d int)
+				collect = func(v ssa.Value, d int) {
+					refs := v.Referrers()
+					if refs == nil || d > 3 {
+						return
+					}
+					for _, r := range *refs {
+						switch x := r.(type) {
+						case *ssa.UnOp:
+							collect(x, d+1)
+						case *ssa.Call:
+							if b, isB := x.Call.Value.(*ssa.Builtin); isB && b.Name() == "len" {
+								continue
+							}
 							uses = append(uses, r)
-						}
-					}
-				}
-			}
-			collect(fv, 0)
-			for _, u := range uses {
-				if !inSameLoop(u.Block(), u.Block()) {
-					continue
-				}
-				found = true
-				n++
-				var bad []string
-				for _, cj := range p.mustHoldAt(u) {
-					for _, a := range cj.list() {
-						if strings.HasSuffix(a, " == nil)") || strings.HasSuffix(a, " != nil)") || strings.Contains(a, "jump$") || strings.Contains(a, "range") || strings.Contains(a, "len(") || strings.Contains(a, "φ") {
+						case *ssa.BinOp:
 							continue
+						case *ssa.Slice:
+							collect(x, d+1)
+						default:
+							if _, isDbg := r.(*ssa.DebugRef); !isDbg {
+								uses = append(uses, r)
+							}
 						}
-						bad = append(bad, a)
 					}
 				}
-				bad = uniq(bad)
-				c.check(len(bad) == 0, "every-requested-key", v+".processStorageKeys: keys of each entry", p.Pos(posOf(u, f)), "the keys of every requested entry are taken over (only validation and loop control guard it)",
-					"the storage keys of a requested entry are taken over only under "+strings.Join(bad, "; ")+": slots named by an entry that fails this test are missing from the proof")
-			}
-		})
+				collect(fv, 0)
+				for _, u := range uses {
+					if !inSameLoop(u.Block(), u.Block()) {
+						continue
+					}
+					found = true
+					n++
+					var bad []string
+					for _, cj := range p.mustHoldAt(u) {
+						for _, a := range cj.list() {
+							if strings.HasSuffix(a, " == nil)") || strings.HasSuffix(a, " != nil)") || strings.Contains(a, "jump$") || strings.Contains(a, "range") || strings.Contains(a, "len(") || strings.Contains(a, "φ") {
+								continue
+							}
+							bad = append(bad, a)
+						}
+					}
+					bad = uniq(bad)
+					c.check(len(bad) == 0, "every-requested-key", v+".processStorageKeys: keys of each entry", p.Pos(posOf(u, f)), "the keys of every requested entry are taken over (only validation and loop control guard it)",
+						"the storage keys of a requested entry are taken over only under "+strings.Join(bad, "; ")+": slots named by an entry that fails this test are missing from the proof")
+				}
+			})
+		}
 		if !found {
 			c.und("every-requested-key", v+".processStorageKeys", p.Pos(fnPos(f)), "no use of the entries' Keys inside the loop found")
 		}
 	}
+}
+
+// samePkgScope: fn and the same-package functions it statically calls, up to depth levels.
+func samePkgScope(fn *ssa.Function, depth int) []*ssa.Function {
+	scope := []*ssa.Function{fn}
+	for d := 0; d < depth; d++ {
+		for _, g := range append([]*ssa.Function{}, scope...) {
+			for _, h := range withAnons(g) {
+				for _, s := range sitesOf(h) {
+					if s.Callee == nil || len(s.Callee.Blocks) == 0 || pkgRelOf(s.Callee) != pkgRelOf(fn) {
+						continue
+					}
+					dup := false
+					for _, x := range scope {
+						if x == s.Callee {
+							dup = true
+						}
+					}
+					if !dup {
+						scope = append(scope, s.Callee)
+					}
+				}
+			}
+		}
+	}
+	return scope
 }
